@@ -372,12 +372,14 @@ func VerifC09_IntegrityCheck() { verifC09(true) }
 func VerifC09_TwoCorruptions() { verifC09P(true, false, true) }
 
 // VerifC09_FkConstraintDangling: the fk is wired as a nullable fk *constraint*
-// (no back-reference set). One or both emps reference an entity that does not
+// (no back-reference set) or a nullable fk index, its symbol named like the
+// field it is stored under or differently (AddFkSymbolWithKey). One or both emps reference an entity that does not
 // exist (ids adjacent): check mode reports each and changes nothing; a fix run
 // clears the dangling references, after which a re-check is clean and the
 // references that were fine are untouched.
 func VerifC09_FkConstraintDangling() {
-	cfg := vStoreCfg{nickNullable: true, fk: vFkConstraintRestrict, fkToDept: true}
+	// fk constraint or nullable fk index; the symbol named like its storage key or not
+	cfg := vStoreCfg{nickNullable: true, fk: []int{vFkConstraintRestrict, vFkIndexNullable}[verifrt.Choose("wiring", 2)], fkToDept: true, fkKeyed: verifrt.Bool("keyed")}
 	env := verifNewEnv(cfg)
 	defer env.close()
 	env.createDepts(vDeptIds...)
